@@ -13,7 +13,7 @@
    correspondence and to the specification by exploration only). *)
 From Coq Require Import List Arith Bool Lia.
 From Mamba Require Import Planar.Model Planar.Spec Planar.SpecLemmas Planar.Invariance
-  Planar.Constructors Planar.ExecProofs Planar.CertProofs.
+  Planar.Constructors Planar.ExecProofs Planar.CertProofs Planar.MinorClosed Planar.DmpModel Planar.DmpProofs.
 Import ListNotations.
 
 Definition K4 : graph := mkG 4 [(0,1);(0,2);(0,3);(1,2);(1,3);(2,3)].
@@ -104,6 +104,23 @@ Example C11_spec_subgraph_nonvacuous :
   del_vertex K5 2 = mkG 4 [(0,1);(0,2);(0,3);(1,2);(1,3);(2,3)] /\ planar_b K5 = false.
 Proof. repeat split; vm_compute; reflexivity. Qed.
 
+(* ---- closed under minors (subsumes the subgraph statement; justifies the verdicts of the
+   harness on edge contractions) *)
+Theorem C11_spec_minor_closed : forall G' G, has_minor G' G -> planar G -> planar G'.
+Proof. exact planar_minor. Qed.
+Print Assumptions C11_spec_minor_closed.
+
+Theorem C11_spec_contract_concrete : forall G a b, wf G -> adj G a b = true ->
+  has_minor (contract G a b) G /\ (planar G -> planar (contract G a b)).
+Proof. intros G a b W A. split; [apply contract_minor|apply planar_contract]; assumption. Qed.
+Print Assumptions C11_spec_contract_concrete.
+
+Example C11_spec_contract_nonvacuous :
+  adj (subdivide K5 3 4) 3 5 = true /\
+  contract (subdivide K5 3 4) 3 5 = mkG 5 [(3,3);(3,4);(0,1);(0,2);(0,3);(0,4);(1,2);(1,3);(1,4);(2,3);(2,4)] /\
+  planar_b (contract (subdivide K5 3 4) 3 5) = false /\ planar_b (contract K33 0 3) = true.
+Proof. repeat split; vm_compute; reflexivity. Qed.
+
 (* ---- invariant under adding an isolated vertex, a pendant vertex, subdividing an edge *)
 Theorem C11_spec_isolated : forall G G', adds_isolated G G' -> (planar G <-> planar G').
 Proof. exact planar_isolated. Qed.
@@ -139,3 +156,37 @@ Proof.
   split; [|repeat split; vm_compute; reflexivity].
   intros e He. simpl in He. repeat (destruct He as [<-|He]; [split; reflexivity|]). destruct He.
 Qed.
+
+(* ---- the executable model of IsPlanar (Planar/DmpModel.v, tied to graph/planar.go by
+   correspondence on t / f / panic for every graph of every case).  PARTIAL: only the shortcut
+   branches and the loop over the biconnected components are covered; missing: that the
+   embedding loop [dmp] returns RT exactly on planar blocks, and that it never returns RPanic
+   (the two panic statements and the index errors) or RFuel (non-termination). *)
+Theorem C11_model_shortcuts_partial : forall g,
+  (gn g < 5 -> is_planar_model g = RT /\ planar g) /\
+  (5 <= gn g -> forall b, In b (blocks (blk_of g)) -> 5 <= length b ->
+     3 * length b - 6 < bm (induced (blk_of g) b) -> is_planar_model g <> RT).
+Proof. exact model_shortcuts. Qed.
+Print Assumptions C11_model_shortcuts_partial.
+
+Theorem C11_model_blocks_partial : forall g, is_planar_model g = RT <->
+  (gn g < 5 \/
+   (b_fuel (blocks_st (blk_of g)) = false /\
+    forall b, In b (blocks (blk_of g)) -> 5 <= length b ->
+      bm (induced (blk_of g) b) <= 3 * length b - 6 /\ dmp (induced (blk_of g) b) = RT)).
+Proof. exact model_true_iff. Qed.
+Print Assumptions C11_model_blocks_partial.
+
+Definition octahedron : graph := mkG 6 [(0,2);(0,3);(0,4);(0,5);(1,2);(1,3);(1,4);(1,5);(2,4);(2,5);(3,4);(3,5)].
+(* K5 glued at vertex 4 to a 5-cycle with a chord: two blocks, the dense one is rejected by the count *)
+Definition K5_plus : graph :=
+  mkG 9 [(0,1);(0,2);(0,3);(0,4);(1,2);(1,3);(1,4);(2,3);(2,4);(3,4);(4,5);(5,6);(6,7);(7,8);(8,4);(5,7)].
+
+Example C11_model_nonvacuous :
+  blocks (blk_of K5_plus) = [[4;5;6;7;8]; [0;1;2;3;4]] /\
+  bm (induced (blk_of K5_plus) [0;1;2;3;4]) = 10 /\ bm (induced (blk_of K5_plus) [4;5;6;7;8]) = 6 /\
+  is_planar_model K5_plus = RF /\
+  is_planar_model K33 = RF /\ bm (blk_of K33) = 9 /\       (* through the embedding loop *)
+  is_planar_model octahedron = RT /\ planar_b octahedron = true /\
+  is_planar_model K4 = RT.
+Proof. repeat split; vm_compute; reflexivity. Qed.
